@@ -15,7 +15,7 @@ STRICT_MULTI = False
 def run(ctx):
     from vlib import solvercases as sc
 
-    sc.run_property(ctx, "C12", strict_multi=STRICT_MULTI, n_scripted=ctx.n(500, 8000), n_evqe=ctx.n(6, 50), enum_events=None if ctx.quick else 5)
+    sc.run_property(ctx, "C12", strict_multi=STRICT_MULTI, n_scripted=ctx.n(700, 8000), n_evqe=ctx.n(12, 50), enum_events=None if ctx.quick else 5)
 
 
 def replay(ctx, payload):
